@@ -301,18 +301,20 @@ structure Mapper where
   ns : List Str := []               -- namespace labels in order
   numbers : Bool := false           -- enable_lookup_by_taxon_number
 
-def lower (s : Str) : Str := s.map Char.toLower
+/-- case folding of labels: the character map `cf` stands for Python's `str.lower` (a parameter: the theorems hold for
+    every `cf`; the driver is handed, per call, the values of `str.lower` on the characters that occur) -/
+def lowerWith (cf : Char → Char) (s : Str) : Str := s.map cf
 
 def findNumber (w : Str) : List Str → Nat → Option Str
   | [], _ => none
   | l :: ls, i => if w == (toString (i + 1)).toList then some l else findNumber w ls (i + 1)
 
 /-- `lookup_taxon_symbol`: TRANSLATE token, then label, then taxon number, else a new taxon -/
-def lookup (m : Mapper) (w : Str) : Mapper × Str :=
-  match m.tokmap.find? (fun p => lower p.1 == lower w) with
+def lookup (cf : Char → Char) (m : Mapper) (w : Str) : Mapper × Str :=
+  match m.tokmap.find? (fun p => lowerWith cf p.1 == lowerWith cf w) with
   | some p => (m, p.2)
   | none =>
-    match m.ns.find? (fun l => lower l == lower w) with
+    match m.ns.find? (fun l => lowerWith cf l == lowerWith cf w) with
     | some l => (m, l)
     | none =>
       match (if m.numbers then findNumber w m.ns 0 else none) with
@@ -325,6 +327,7 @@ structure ROpts where
   sint : Bool := true      -- suppress_internal_node_taxa
   sleaf : Bool := false    -- suppress_leaf_node_taxa
   stw : Bool := false      -- store_tree_weights
+  cf : Char → Char := Char.toLower   -- case folding used by the symbol mapper (see `lowerWith`)
 
 structure AS where
   m : Mapper
@@ -343,7 +346,7 @@ def assign (o : ROpts) : RT → AS → Option (NT × AS)
       | some w =>
         if (if cs.isEmpty then o.sleaf else o.sint) then some (.node none (some w) e cs', s1)
         else
-          match lookup s1.m w with
+          match lookup o.cf s1.m w with
           | (m', tx) =>
             if s1.seen.contains tx then none
             else some (.node (some tx) none e cs', ⟨m', tx :: s1.seen⟩)
@@ -404,21 +407,23 @@ def skipSemis (atEof : Bool) : List TokE → List TokE
   | [] => []
   | t :: r => if kind t == .semi && !(r.isEmpty && atEof) then skipSemis atEof r else t :: r
 
-def stmtFuel (l : List TokE) : Nat := 4 * l.length + 8
+def stmtFuel (l : List TokE) : Nat := 6 * l.length + 8
 
 /-- all tree statements of a token stream. `init`: the tokenizer has not been advanced yet.
-    `none` = a reader error -/
-def parseStmts (o : ROpts) (atEof : Bool) : Nat → Bool → List TokE → Mapper → List PT → Option (List PT × Mapper)
+    `none` = a reader error.  `k`: extra fuel for the statement parser (0 in `parseText`; the driver re-runs with a
+    large `k` and reports `FUEL` if that changes the outcome, so that running out of fuel is never mistaken for a
+    reader error) -/
+def parseStmts (o : ROpts) (atEof : Bool) (k : Nat) : Nat → Bool → List TokE → Mapper → List PT → Option (List PT × Mapper)
   | 0, _, _, _, _ => none
   | f + 1, init, l, m, acc =>
     match l with
     | [] => if init then none else some (acc, m)   -- `require_next_token` on an exhausted stream / end of trees
     | t :: r =>
       if kind t == .semi && !(r.isEmpty && atEof) then
-        (if r.isEmpty then none else parseStmts o atEof f false r m acc)
+        (if r.isEmpty then none else parseStmts o atEof k f false r m acc)
       else if r.isEmpty && atEof then some (acc, m)  -- `if is_eof(): return None`
       else
-        match parseNode (stmtFuel l) (l.map kind) with
+        match parseNode (stmtFuel l + k) (l.map kind) with
         | none => none
         | some (_, _, false) => none
         | some (rt, rest, true) =>
@@ -426,14 +431,17 @@ def parseStmts (o : ROpts) (atEof : Bool) : Nat → Bool → List TokE → Mappe
           | none => none
           | some (nt, s) =>
             let (rooting, weight) := treeComments o t.cm none none
-            parseStmts o atEof f false (skipSemis atEof (l.drop (l.length - rest.length))) s.m
+            parseStmts o atEof k f false (skipSemis atEof (l.drop (l.length - rest.length))) s.m
               (acc ++ [⟨rooting, weight, nt⟩])
 
-/-- `TreeList.get(data=text, schema="newick", …)` into a mapper (fresh namespace for plain Newick) -/
-def parseText (o : ROpts) (m : Mapper) (text : Str) : Option (List PT × Mapper) :=
-  let ts := tokenizeAll o.pu text
+/-- the reader with `k` units of extra fuel everywhere -/
+def parseTextK (k : Nat) (o : ROpts) (m : Mapper) (text : Str) : Option (List PT × Mapper) :=
+  let ts := tokenize o.pu (text.length + 1 + k) text
   if !ts.ok then none
-  else parseStmts o ts.atEof (ts.toks.length + 2) true ts.toks m []
+  else parseStmts o ts.atEof k (ts.toks.length + 2 + k) true ts.toks m []
+
+/-- `TreeList.get(data=text, schema="newick", …)` into a mapper (fresh namespace for plain Newick) -/
+def parseText (o : ROpts) (m : Mapper) (text : Str) : Option (List PT × Mapper) := parseTextK 0 o m text
 
 /-! ### rendering for the protocol -/
 
